@@ -8,5 +8,5 @@ cd /repo || exit 2
 git diff --quiet || { echo "/repo not clean"; exit 2; }
 git apply $REV "$P" || { echo "patch does not apply"; exit 2; }
 trap 'git -C /repo checkout -- . ' EXIT INT TERM
-cd /verif && VERIF_DEV_SKIP_MC=1 timeout -s KILL 1500 bin/check "$ID" "$TIER" 2>&1 | grep -E "VIOLATION|KNOWN|violations,|TOOL TROUBLE|rejected at" | head -8
+cd /verif && rm -rf /verif/replays && VERIF_DEV_SKIP_MC=1 timeout -s KILL 1500 bin/check "$ID" "$TIER" 2>&1 | grep -E "VIOLATION|KNOWN|violations,|TOOL TROUBLE|rejected at" | head -8
 echo "exit=$?"
